@@ -28,6 +28,68 @@ func callOfMethod(rel, typ, name string, a *A) func(ssa.Instruction) bool {
 // ruleStageOrder: every non-optional stage occurs in fn, and for i<j no stage-i instruction is reachable
 // after a stage-j instruction (so on every path the stages that run, run in the listed order).
 func (a *A) ruleStageOrder(fn *ssa.Function, stages []stage) {
+	// a stage may be carried out by a helper of the same package (one level): the call of the helper is
+	// then the stage's site, and the order of the stages inside the helper is checked on the helper
+	direct := make([]func(ssa.Instruction) bool, len(stages))
+	helperStages := map[*ssa.Function]map[int]bool{}
+	for i := range stages {
+		i := i
+		direct[i] = stages[i].match
+		// only a stage that does not occur in fn itself is looked for in its helpers
+		occursDirectly := false
+		allInstrs(fn, func(in ssa.Instruction) {
+			if direct[i](in) {
+				occursDirectly = true
+			}
+		})
+		if occursDirectly {
+			continue
+		}
+		stages[i].match = func(in ssa.Instruction) bool {
+			if direct[i](in) {
+				return true
+			}
+			if _, isGo := in.(*ssa.Go); isGo {
+				return false
+			}
+			callee := staticCallee(in)
+			if callee == nil || callee == fn || callee.Blocks == nil || callee.Pkg != fn.Pkg || !a.fnInModule(callee) {
+				return false
+			}
+			found := false
+			allInstrs(callee, func(x ssa.Instruction) {
+				if direct[i](x) {
+					found = true
+				}
+			})
+			if found {
+				if helperStages[callee] == nil {
+					helperStages[callee] = map[int]bool{}
+				}
+				helperStages[callee][i] = true
+			}
+			return found
+		}
+	}
+	defer func() {
+		for i := range stages {
+			stages[i].match = direct[i]
+		}
+		for h, set := range helperStages {
+			if len(set) < 2 {
+				continue
+			}
+			var sub []stage
+			for i := range stages {
+				if set[i] {
+					st := stages[i]
+					st.optional = true
+					sub = append(sub, st)
+				}
+			}
+			a.ruleStageOrder(h, sub)
+		}
+	}()
 	sites := make([][]ssa.Instruction, len(stages))
 	allInstrs(fn, func(in ssa.Instruction) {
 		for i, s := range stages {
